@@ -8,7 +8,8 @@ PATCH=$(realpath "$1"); shift
 NAME=$(basename "$PATCH" .diff)
 W=/tmp/mut-iso/$NAME
 rm -rf "$W"; mkdir -p "$W"
-rsync -a --exclude target --exclude .git /repo/ "$W/repo/"
+# the committed state of /repo (not its working tree, which another run may have patched at this moment)
+mkdir -p "$W/repo" && git -C /repo archive HEAD | tar -x -C "$W/repo"
 rsync -a --exclude target /verif/harness/ "$W/harness/"
 sed -i "s#path = \"/repo\"#path = \"$W/repo\"#" "$W/harness/Cargo.toml"
 rm -f "$W/harness/.cargo/config.toml"
